@@ -9,6 +9,10 @@ Case (JSON):
    "nmutex": 1..3,
    "w": [{"ops": ["cp 0 5 50", ...], "ys": [[opidx, kind, count], ...]}, ...]   workload i = w[i % len(w)]
    "joins": [[len, seed, dkind, dcount, mid, nint, slen, nalloc], ...]          join programs run by main
+   "clones": [[j, mode, src, at], ...]   optional: workload j runs in a Thread object cloned from the RUNNING worker
+                                 src just before src's op <at>: 1 src does assign(new_raw(Thread), current(Thread)) +
+                                 call, joins after its ops; 2 src does copy(current(Thread)) + call + join; 3 main does
+                                 assign(new_raw(Thread), src's Thread) + call while src waits; 4 main does copy(...)
    "rep": n}                     optional: run the whole case n times, fail if any run fails (stress cases)
 
 The op language is documented in harness/ex_thr.c (do_op).  The executor first runs every workload alone
@@ -36,16 +40,20 @@ RULE = ("case = T in 2..16 workloads (thread i runs w[i mod len(w)], so some cas
         "mutexes in ascending order, non-atomic counter increment with a generated spin between read and write, "
         "in-section flag), join programs (in main and inside workloads: worker writes bytes, Array pushes, a String, "
         "after generated delays), plus a per-workload yield schedule (sched_yield / spin / short sleep before chosen ops), "
-        "start barrier on/off, main thread taking part or not, Thread objects collected or raw, ASan or gcc -O0 build. "
+        "start barrier on/off, main thread taking part or not, Thread objects collected or raw, ASan or gcc -O0 build; "
+        "in about a third of the cases 1..3 workloads run in Thread objects cloned from a running worker (by the worker "
+        "itself with assign into new_raw(Thread) and running on beside it, or with copy(current(Thread)) + call + join; "
+        "or by the main thread with assign/copy of the worker's Thread object while the worker waits) and are judged "
+        "like every other workload. "
         "Each workload is first run alone; per-thread result digest and exception-trace digest must be equal in the "
         "concurrent run; ledger: no finalisation on a thread other than the allocator, none twice, nothing reachable "
         "from a slot finalised; thread-local values read back are the thread's own; exception depth 0 after every op; "
         "counter == number of increments and flag never seen set; joiner sees every write and the done mark. "
         "non-trivial = measured (global op counter stamped at every op): >= 2 workloads whose [first op, last op] "
         "intervals intersect AND >= 1 collection (forced, or a finaliser run by a threshold collection) or throw whose "
-        "stamp lies strictly inside another workload's interval. distinct = distinct case JSON. extra phase: 30 fixed "
-        "stress programs (lock / exception / churn / thread-local / join heavy; T in 2,4,8,16; both builds), each "
-        "run 3 times.")
+        "stamp lies strictly inside another workload's interval. distinct = distinct case JSON. extra phase: 36 fixed "
+        "stress programs (lock / exception / churn / thread-local / join / clone heavy; T in 2,4,8,16; both builds), "
+        "each run 3 times.")
 
 ASSUMPTIONS = [
     "every workload is bounded (no waits except the start signal given by main after all call()s returned, and "
@@ -61,6 +69,11 @@ ASSUMPTIONS = [
     "thread's Table; see report) - that input class is excluded by construction",
     "data races without an observable wrong result (Type cache fills) are not failures; TSan is not used",
     "leaked (never finalised) thread objects are recorded as an event, not as a failure (not part of the statement)",
+    "cloned threads: Thread_Assign copies the source's thread-local table; nothing is asserted about the inherited "
+    "user entries (the clone removes them from its own copy before its workload, never dereferencing them); the main "
+    "thread only copies a worker's Thread object while that worker waits (an unsynchronised read of a table that is "
+    "being rehashed would be the known finding again); a clone made with copy() is collector-managed, so the copying "
+    "thread does not allocate while such a clone runs (self-copy: call+join at once; main copy: main=0, gcthr=0, once)",
 ]
 
 NCONT, NOBJ, NKEY = 6, 4, 6
@@ -243,8 +256,22 @@ def _case(draw, tier):
         elif dk == 2:
             dc = dc % 150
         jl.append([ln, seed, dk, dc, mid, nint, slen, nalloc])
+    clones = []
+    first = 1 if main else 0
+    if T - first >= 2 and draw(st.integers(0, 2)) == 0:
+        ncl = draw(st.integers(1, min(3, T - first - 1)))
+        used4 = False
+        for k in range(ncl):
+            j = T - 1 - k
+            src = draw(st.integers(first, T - 1 - ncl))
+            nops = len(w[src % len(w)]["ops"])
+            mode = draw(st.sampled_from([1, 1, 2, 3, 4]))
+            if mode == 4 and (main or gcthr or used4):
+                mode = 3
+            used4 = used4 or mode == 4
+            clones.append([j, mode, src, draw(st.integers(0, nops))])
     return {"cfg": draw(st.sampled_from(["asan", "plain"])), "T": T, "main": main, "gcthr": gcthr,
-            "barrier": draw(st.sampled_from([0, 1, 1, 1])), "nmutex": nmutex, "w": w, "joins": jl}
+            "barrier": draw(st.sampled_from([0, 1, 1, 1])), "nmutex": nmutex, "w": w, "joins": jl, "clones": clones}
 
 
 def strategy(tier):
@@ -254,7 +281,8 @@ def strategy(tier):
 def SAMPLE(case):
     return {"cfg": case["cfg"], "T": case["T"], "main": case["main"], "gcthr": case["gcthr"], "barrier": case["barrier"],
             "nmutex": case["nmutex"], "workloads": len(case["w"]), "ops_per_workload": [len(x["ops"]) for x in case["w"]],
-            "first_ops": case["w"][0]["ops"][:6], "yields": case["w"][0]["ys"][:4], "joins": case["joins"]}
+            "first_ops": case["w"][0]["ops"][:6], "yields": case["w"][0]["ys"][:4], "joins": case["joins"],
+            "clones": case.get("clones", [])}
 
 
 # ---- running -----------------------------------------------------------------------------------
@@ -271,6 +299,8 @@ def encode(case):
             lines.append("y %d %d %d" % (at, k, cnt))
     for j in case.get("joins", []):
         lines.append("j " + " ".join(str(x) for x in j))
+    for c in case.get("clones", []):
+        lines.append("s " + " ".join(str(x) for x in c))
     return "\n".join(lines)
 
 
@@ -284,6 +314,8 @@ def _judge(case, obs):
         ev.append("main-thread-takes-part")
     if case["gcthr"]:
         ev.append("thread-objects-collected")
+    for c in case.get("clones", []):
+        ev.append("clone-mode-%d" % c[1])
     if not obs:
         return "executor produced no output", False, ev
     last = obs[-1]
@@ -420,6 +452,21 @@ def _stress(kind, T, cfg):
             ops += ["ts %d %d" % (r % NKEY, r), "tg %d" % (r % NKEY), "ts %d %d" % ((r + 1) % NKEY, 100 + r), "tg %d" % ((r + 1) % NKEY),
                     "tr %d" % (r % NKEY), "tg %d" % (r % NKEY), "ch 20"]
         w = [{"ops": ops, "ys": [[2, 0, 1], [10, 1, 800], [33, 0, 2]]}]
+    elif kind == "clone":
+        # worker 0 keeps a chain alive and churns; the other workloads run in clones of it, keep chains alive
+        # and keep walking them while worker 0 (and they) collect
+        src = ["ts 1 5", "ob 0 12", "ch 200"]
+        for r in range(10):
+            src += ["ow 0", "ch 250", "tg 1", "gc" if r % 3 == 0 else "ch 60"]
+        cl = ["ob 1 20", "tg 1"]
+        for r in range(10):
+            cl += ["ow 1", "ch 40", "ex T 0 S 2 A 10 X %d M 1" % (r % 4), "ow 1", "ts 1 %d" % r, "tg 1"]
+        ys = [[k, 1, 1500] for k in range(3, len(cl), 4)]
+        w = [{"ops": src, "ys": [[5, 0, 1], [20, 1, 800]]}] + [{"ops": cl, "ys": ys}]
+        # even workloads are sources, every odd workload j runs in a clone of worker j-1
+        modes = [1, 2, 3, 4 if cfg == "plain" else 1, 1, 3, 2, 1]
+        clones = [[j, modes[(j // 2) % len(modes)], j - 1, 3 + (j // 2) % 5] for j in range(1, T, 2)]
+        return {"cfg": cfg, "T": T, "main": 0, "gcthr": 0, "barrier": 1, "nmutex": 1, "w": w, "joins": [], "clones": clones, "rep": 3}
     else:  # join
         ops = ["jw 48 7 1 2500 3 5 20 4", "ch 60", "jw 16 9 0 3 1 2 0 0", "ow 0", "jw 64 11 2 60 0 6 33 8"]
         w = [{"ops": ops, "ys": []}]
@@ -439,7 +486,7 @@ def extra_phase(ctx, tier, stats, sample_fn):
     n = 0
     if os.environ.get("VERIF_C13_NOSTRESS"):          # sensitivity experiments: generated cases only
         return {"fails": [], "extra": {"stress_programs": 0}}
-    for kind in ("lock", "exc", "churn", "tls", "join"):
+    for kind in ("clone", "lock", "exc", "churn", "tls", "join"):
         for (T, cfg) in STRESS_SHAPES:
             case = _stress(kind, T, cfg)
             res = run_case(ctx, case)
